@@ -47,7 +47,7 @@ def cases(tier, seed):
     allops = hist_array.ALPHABET + hist_array.EXTRA
     for k in range(nlong):
         nt, bo = COMBOS[k % len(COMBOS)]
-        start = rng.choice(hist_array.STARTS + [(1,), (5, 1), (0, 2, 1, 2)])
+        start = rng.choice(hist_array.STARTS + [(1,), (5, 1), (0, 2, 1, 2), (11,), (10, 2), (100,)])
         n = rng.randint(30, 60 if tier == 'quick' else 200)
         yield {'start': {'shape': list(start), 'numtype': nt, 'bo': bo, 'chunklen': rng.choice([1, 2, 100])},
                'ops': [rng.choice(allops) for _ in range(n)], 'vseed': f'{seed}:L{k}',
